@@ -26,6 +26,7 @@ pub fn admission_table() -> Vec<(&'static str, Vec<Family>)> {
         ("wrong-num-vars-setup", vec![Hyrax, Pst13, Mlpc]),
         ("wrong-num-vars-commit", vec![Hyrax, Brakedown, Mlpc]),
         ("wrong-num-vars-open", vec![Hyrax, MLigero, Brakedown]),
+        ("wrong-num-vars-check", vec![Mlpc]),
         ("mismatched-labels", vec![Ipa, Hyrax]),
         ("unknown-polynomial-open", vec![Marlin, Sonic, Ipa, Pst13, Hyrax, ULigero, MLigero, Brakedown, Kzg10, Mlpc]),
         ("unknown-polynomial-check", vec![Marlin, Sonic, Ipa, Pst13, Hyrax, ULigero, MLigero, Brakedown, Kzg10, Mlpc]),
@@ -201,6 +202,31 @@ pub fn run<S: Scheme>(scn: &Scenario, log: &EventLog) -> RunResult {
                 let mut sp = pr.sponge.fork();
                 let o = step(|| PcOf::<S>::open(&pr.ck, [&pr.polys[0]], [&pr.comms[0]], &z, &mut sp, [&pr.states[0]], Some(&mut rng)));
                 Some((format!("open(point of {} coordinates, {}-variate polynomial)", nv + 1 + f.target % 2, nv), o.is_ok(), o.describe()))
+            }
+            "wrong-num-vars-check" => {
+                // the honest proof and value, presented at the same point with surplus coordinates
+                // (the point generator draws coordinates in order, so a longer point extends the honest one)
+                let nv = cfg.num_vars.unwrap_or(0);
+                let extra = 1 + f.target % 2;
+                let c2 = KeyCfg { num_vars: Some(nv + extra), ..cfg.clone() };
+                let v = &sess.verifier;
+                let pr = &sess.prover;
+                let z = S::P::point(cfg, scn.seed, 778);
+                let z2 = S::P::point(&c2, scn.seed, 778);
+                let mut sp = v.sponge.fork();
+                match step(|| PcOf::<S>::open(&pr.ck, [&pr.polys[0]], [&pr.comms[0]], &z, &mut sp, [&pr.states[0]], Some(&mut rng))) {
+                    Outcome::Ok(proof) => {
+                        let val = pr.polys[0].polynomial().eval_ref(&z);
+                        let mut sp = v.sponge.fork();
+                        let (d0, _) = decide(|| PcOf::<S>::check(&v.vk, [&pr.comms[0]], &z, [val], &proof, &mut sp, Some(&mut rng)));
+                        if !d0.accepted() || S::P::point_len(&z2) != nv + extra { res.stats.probe("vacuous:honest-not-accepted"); None } else {
+                            let mut sp = v.sponge.fork();
+                            let (d, why) = decide(|| PcOf::<S>::check(&v.vk, [&pr.comms[0]], &z2, [val], &proof, &mut sp, Some(&mut rng)));
+                            Some((format!("check(point of {} coordinates, {}-variate key and proof)", nv + extra, nv), d.accepted(), format!("{} {}", d.name(), trunc(&why, 60))))
+                        }
+                    }
+                    _ => None,
+                }
             }
             "mismatched-labels" => {
                 if scn.polys.len() < 2 { None } else {
